@@ -315,6 +315,20 @@ func c16Case(r *evid.Run, tier string, idx int, g *rng.R) {
 			}
 			r.Count("deeply_nested_values", 1)
 		}
+		if idx%25 == 3 && i == 0 {
+			// more than a KiB of pure ASCII first, raw non-ASCII characters in keys and strings after it
+			big := &jval{kind: 'a'}
+			for k := g.Range(150, 400); k > 0; k-- {
+				if g.Bool() {
+					big.items = append(big.items, &jval{kind: 'n', num: float64(g.Range(0, 99999))})
+				} else {
+					big.items = append(big.items, &jval{kind: 's', str: "ascii item"})
+				}
+			}
+			big.items = append(big.items, v, &jval{kind: 'o', keys: []string{"città", "k"}, items: []*jval{{kind: 's', str: "日本語 😀 é"}, {kind: 's', str: "naïve"}}})
+			v = big
+			r.Count("long_ascii_prefix_then_non_ascii", 1)
+		}
 		tops = append(tops, v)
 		if i > 0 {
 			sb.WriteString(rng.Pick(g, []string{" ", "\n", "\n\n"}))
